@@ -72,8 +72,8 @@ func TestC09ConcurrentAddresses(t *testing.T) {
 			}
 			c.Logf("worker %d: %v", w, scripts[w])
 		}
-		// read-only bystanders: callers that list accounts / read account
-		// properties while addresses are being issued; they receive nothing
+		// bystanders: callers that list accounts, read account properties or
+		// rename an account while addresses are being issued; they receive nothing
 		nReaders := rapid.IntRange(0, 2).Draw(t, "readers")
 		c.Logf("read-only bystanders: %d", nReaders)
 		gateEvery := rapid.IntRange(1, 4).Draw(t, "gateEvery") // gate every k-th commit ...
@@ -158,10 +158,14 @@ func TestC09ConcurrentAddresses(t *testing.T) {
 					default:
 					}
 					p := pairs[(r+i)%len(pairs)]
-					if (r+i)%2 == 0 {
+					switch (r + i) % 3 {
+					case 0:
 						_, _ = s.F.W.AccountProperties(p.Scope, p.Account)
-					} else {
+					case 1:
 						_, _ = s.F.W.Accounts(p.Scope)
+					default:
+						// renaming an account issues nothing either
+						_ = s.F.W.RenameAccount(p.Scope, p.Account, fmt.Sprintf("n%dr%di%d", p.Account, r, i))
 					}
 					time.Sleep(50 * time.Microsecond)
 				}
